@@ -27,6 +27,22 @@
                     no setpoint is sent for it and the period wait starts afresh
      "turnmod"      turn_left/turn_right reduce the requested angle modulo 360 degrees
 
+     "kbdfast"      MotionCommander.__exit__ on KeyboardInterrupt (raise a = 1) sends stop + release itself and
+                    leaves the setpoint thread running
+     "negtimeout"   the setpoint thread subtracts the time the last send took from its wait and dies when a send
+                    took longer than the period
+     "takeoffadd"   PositionHlCommander.take_off adds the height to the recorded z instead of setting it
+
+   "raise" a = kind of exception leaving the body (0 an Exception subclass, 1 KeyboardInterrupt, 2 SystemExit,
+   3 GeneratorExit, 4 another direct BaseException subclass): the helpers must treat them alike.
+   Link latency: a hover setpoint handed to the commander may block the setpoint thread for L ms (L from Lats, at
+   most MaxLat times per behaviour; sp = "sending" meanwhile).  `lastT` is the time the last send *returned* (or
+   the thread started): the thread must not wait longer than one period before it sends again.  A command issued
+   while the thread is kept by the link is in force from the moment the thread takes it from its queue (`tvels`;
+   without latency that is the instant it was issued): the stream's velocities and height follow `tvels`.
+   PositionHlCommander: start position (X0, Y0, Z0); "land" (c = landing height, w = 1: default, v = velocity) and
+   "takeoff" (c = height, w = 1: default, v) as primitives: several flights on one object.
+
    The body may also let time pass between two primitives ("wait" a = ms: the user's own
    time.sleep, as every program using start_*/stop does); the stream must not depend on it.        *)
 EXTENDS Integers, Sequences, FiniteSets, TLC
@@ -35,6 +51,8 @@ CONSTANTS Helper, Mode,      \* "MC" | "PHC" ; "with" | "explicit"
           Prims, MaxLen,     \* primitives the body may use, bound on the program length
           DH, DV, DL,        \* default height (mm), PHC default velocity (mm/s), PHC landing height (mm)
           Period,            \* _SetPointThread.UPDATE_PERIOD (ms)
+          X0, Y0, Z0,        \* PHC start position (mm)
+          Lats, MaxLat,      \* link latencies a hover send may take (ms), how many sends may be slow
           Bug
 
 P == INSTANCE FlightProps
@@ -44,13 +62,15 @@ VARIABLES now,
           prog, cur,                          \* history: primitives chosen so far; blocking primitive in progress
           hread,                              \* cmd's snapshot of hs.z at its last firing
           q, sp, deadline, hs, zbase, zvel, zt0,   \* _SetPointThread
+          nlat,                               \* sends that took time so far
+          tvels,                              \* history: the velocity commands as the setpoint thread took them from its queue
           pos,                                \* PHC: [x,y,z,dv,dh,dl] as the object holds them
           est,                                \* PHC history: the same record as the *program* determines it
           calls, vels, lastT, viol            \* history: commander calls, velocity commands, last setpoint time, first failing clause
 
-vars == <<now, cst, wake, todo, flying, outcome, prog, cur, hread, q, sp, deadline, hs, zbase, zvel, zt0,
+vars == <<now, cst, wake, todo, flying, outcome, prog, cur, hread, q, sp, deadline, hs, zbase, zvel, zt0, nlat, tvels,
           pos, est, calls, vels, lastT, viol>>
-spvars == <<q, sp, deadline, hs, zbase, zvel, zt0>>
+spvars == <<q, sp, deadline, hs, zbase, zvel, zt0, nlat, tvels>>
 
 MCV == 200        \* MotionCommander.VELOCITY
 MCR == 72         \* MotionCommander.RATE
@@ -84,9 +104,9 @@ Init == /\ now = 0
                   ELSE <<Op("sleep", 1000, NoVel), Op("hltakeoff", (DH * 1000) \div DV, NoVel),
                          Op("sleep", (DH * 1000) \div DV, [Lin(0, 0, DH) EXCEPT !.w = 2]), Op("body", 0, NoVel)>>
         /\ prog = <<>> /\ cur = NoCur /\ hread = 0
-        /\ q = <<>> /\ sp = "none" /\ deadline = 0
+        /\ q = <<>> /\ sp = "none" /\ deadline = 0 /\ nlat = 0 /\ tvels = <<>>
         /\ hs = [v |-> NoVel, z |-> 0] /\ zbase = 0 /\ zvel = 0 /\ zt0 = 0
-        /\ pos = [x |-> 0, y |-> 0, z |-> 0, dv |-> DV, dh |-> DH, dl |-> DL]
+        /\ pos = [x |-> X0, y |-> Y0, z |-> Z0, dv |-> DV, dh |-> DH, dl |-> DL]
         /\ est = pos
         /\ calls = <<>> /\ vels = <<>> /\ lastT = 0 /\ viol = "ok"
 
@@ -115,18 +135,20 @@ CmdSleep(ms) ==
 CmdWake == /\ cst = "sleep" /\ now >= wake
            /\ cst' = "run" /\ todo' = Rest /\ hread' = hs.z
            /\ pos' = CASE Helper = "PHC" /\ H.v.w = 1 /\ Bug # "norecord" -> [pos EXCEPT !.x = H.v.vx, !.y = H.v.vy, !.z = H.v.vz]
-                       [] Helper = "PHC" /\ H.v.w \in {2, 3} -> [pos EXCEPT !.z = H.v.vz]
+                       [] Helper = "PHC" /\ H.v.w \in {2, 4} /\ Bug = "takeoffadd" -> [pos EXCEPT !.z = pos.z + H.v.vz]
+                       [] Helper = "PHC" /\ H.v.w \in {2, 3, 4, 5} -> [pos EXCEPT !.z = H.v.vz]
                        [] OTHER -> pos
            /\ est' = CASE Helper = "PHC" /\ H.v.w = 1 -> P!NextSt(prog[Len(prog)], est)
                        [] Helper = "PHC" /\ H.v.w = 2 -> [est EXCEPT !.z = est.dh]
                        [] Helper = "PHC" /\ H.v.w = 3 -> [est EXCEPT !.z = est.dl]
+                       [] Helper = "PHC" /\ H.v.w \in {4, 5} -> P!NextSt(prog[Len(prog)], est)
                        [] OTHER -> est
            /\ UNCHANGED <<now, wake, flying, outcome, prog, cur, spvars, calls, vels, lastT, viol>>
 
 CmdSpStart == /\ Ready /\ H.k = "spstart"
               /\ todo' = Rest /\ sp' = "waiting" /\ deadline' = now + Period /\ lastT' = now * 1000
               /\ hread' = hs.z
-              /\ UNCHANGED <<now, cst, wake, flying, outcome, prog, cur, q, hs, zbase, zvel, zt0, pos, est, calls, vels, viol>>
+              /\ UNCHANGED <<now, cst, wake, flying, outcome, prog, cur, q, hs, zbase, zvel, zt0, nlat, tvels, pos, est, calls, vels, viol>>
 
 \* queue.put of a velocity setpoint (the linearisation point of set_vel_setpoint)
 CmdPut == /\ Ready /\ H.k = "vel"
@@ -139,17 +161,22 @@ CmdPut == /\ Ready /\ H.k = "vel"
                 THEN /\ viol' = Fail(P!PrimClause(cur.p, vels[cur.c], cur.dur, cur.durUs, c))
                      /\ cur' = NoCur
                 ELSE UNCHANGED <<cur, viol>>
-          /\ UNCHANGED <<now, cst, wake, flying, outcome, prog, sp, deadline, hs, zbase, zvel, zt0, pos, est, calls, lastT>>
+          /\ UNCHANGED <<now, cst, wake, flying, outcome, prog, sp, deadline, hs, zbase, zvel, zt0, nlat, tvels, pos, est, calls, lastT>>
 
 CmdTerm == /\ Ready /\ H.k = "term"
            /\ todo' = Rest /\ q' = Append(q, TERM) /\ hread' = hs.z
-           /\ UNCHANGED <<now, cst, wake, flying, outcome, prog, cur, sp, deadline, hs, zbase, zvel, zt0, pos, est, calls, vels, lastT, viol>>
-CmdJoin == /\ Ready /\ H.k = "join" /\ sp = "done"
+           /\ UNCHANGED <<now, cst, wake, flying, outcome, prog, cur, sp, deadline, hs, zbase, zvel, zt0, nlat, tvels, pos, est, calls, vels, lastT, viol>>
+CmdJoin == /\ Ready /\ H.k = "join" /\ sp \in {"done", "dead"}
            /\ todo' = Rest
            /\ UNCHANGED <<now, cst, wake, flying, outcome, prog, cur, hread, spvars, pos, est, calls, vels, lastT, viol>>
 
+\* the calls of the flight in progress: a take-off primitive after a landing starts a new one
+NewFlights == {i \in DOMAIN calls : i > 1 /\ calls[i] = "takeoff" /\ calls[i - 1] = "stop"}
+FlightBase == IF NewFlights = {} THEN 0 ELSE (CHOOSE i \in NewFlights : \A j \in NewFlights : j <= i) - 1
+FlightCalls(c) == IF c = "takeoff" /\ calls # <<>> /\ calls[Len(calls)] = "stop" /\ prog # <<>> /\ prog[Len(prog)].op = "takeoff"
+                  THEN <<>> ELSE SubSeq(calls, FlightBase + 1, Len(calls))
 \* a commander / high-level commander call that is not a setpoint of the stream
-Call(c) == /\ viol' = Fail(IF ~P!AfterStopOK(Helper, calls, c) THEN "StreamAfterStop"
+Call(c) == /\ viol' = Fail(IF ~P!AfterStopOK(Helper, FlightCalls(c), c) THEN "StreamAfterStop"
                            ELSE IF Helper = "MC" /\ c = "stop" /\ ~P!HoverGap(now * 1000, lastT, Period * 1000, 1000)
                            THEN "HoverGap" ELSE "ok")
            /\ calls' = Append(calls, c)
@@ -166,7 +193,7 @@ CmdGoTo == /\ Ready /\ H.k = "hlgoto"
            /\ todo' = Rest
            /\ LET p == prog[Len(prog)]
                   g == [x |-> P!Milli(H.v.vx), y |-> P!Milli(H.v.vy), z |-> P!Milli(H.v.vz), dur |-> P!Milli(H.n)]
-              IN viol' = Fail(IF ~P!AfterStopOK(Helper, calls, "goto") THEN "StreamAfterStop"
+              IN viol' = Fail(IF ~P!AfterStopOK(Helper, FlightCalls("goto"), "goto") THEN "StreamAfterStop"
                               ELSE P!GoToClause(g, p, est))
            /\ calls' = Append(calls, "goto")
            /\ UNCHANGED <<now, cst, wake, flying, outcome, prog, cur, hread, spvars, pos, est, vels, lastT>>
@@ -197,6 +224,8 @@ DurQ(p) == CASE p.op = "move" -> P!Q(P!Dist(p.a, p.b, p.c), MoveVel(p), 0)
              [] p.op = "circle" -> P!Q(2 * p.c * p.b, 360 * MoveVel(p), 1)
              [] OTHER -> P!Whole(0)
 
+TakeoffH(p) == IF p.w = 1 THEN pos.dh ELSE p.c
+LandH(p) == IF p.w = 1 THEN pos.dl ELSE p.c
 \* the exit path: __exit__ -> land(), or an explicit land()
 LandOps ==
     IF ~flying THEN <<Op("end", 0, NoVel)>>
@@ -216,6 +245,10 @@ Choose(p) ==
     /\ Ready /\ H.k = "body" /\ Len(prog) < MaxLen
     /\ p.op = "raise" => Mode = "with"
     /\ Helper = "PHC" /\ p.op \in {"move", "goto"} => RationalGo(p)
+    /\ Helper = "PHC" /\ p.op \in {"move", "goto", "land"} => flying        \* (programs are generated that way)
+    /\ p.op \in {"land", "takeoff"} => Helper = "PHC"
+    /\ p.op = "takeoff" => ~flying /\ (TakeoffH(p) * 1000) % MoveVel(p) = 0
+    /\ p.op = "land" => (Abs(pos.z - LandH(p)) * 1000) % MoveVel(p) = 0
     /\ prog' = Append(prog, p)
     /\ LET nomove == p.op = "move" /\ Helper = "MC" /\ P!Dist(p.a, p.b, p.c) = 0   \* zero-length move: nothing to do
            zero == nomove /\ Bug = "landdiv0"                                      \* (as found: ZeroDivisionError in the primitive)
@@ -227,9 +260,15 @@ Choose(p) ==
                     [] p.op = "stop" -> <<Op("vel", 0, NoVel)>>
                     [] p.op = "wait" -> <<Op("sleep", p.a, NoVel)>>
                     [] p.op \in {"move", "goto"} /\ Helper = "PHC" -> GoOps(p)
+                    [] p.op = "takeoff" -> LET ms == (TakeoffH(p) * 1000) \div MoveVel(p) IN
+                          <<Op("hltakeoff", ms, NoVel), Op("sleep", ms, [Lin(0, 0, TakeoffH(p)) EXCEPT !.w = 4])>>
+                    [] p.op = "land" -> LET ms == (Abs(pos.z - LandH(p)) * 1000) \div MoveVel(p) IN
+                          <<Op("hlland", ms, NoVel), Op("sleep", ms, [Lin(0, 0, LandH(p)) EXCEPT !.w = 5]), Op("hlstop", 0, NoVel)>>
                     [] OTHER -> <<>>
        IN IF p.op = "raise" \/ zero
-          THEN /\ todo' = LandOps /\ outcome' = (IF zero THEN "primexc" ELSE "scripted") /\ cur' = NoCur
+          THEN /\ todo' = (IF Bug = "kbdfast" /\ Helper = "MC" /\ p.op = "raise" /\ p.a = 1 /\ flying
+                           THEN <<Op("stop", 0, NoVel), Op("notify", 0, NoVel), Op("end", 0, NoVel)>> ELSE LandOps)
+               /\ outcome' = (IF zero THEN "primexc" ELSE "scripted") /\ cur' = NoCur
                /\ UNCHANGED <<pos, est>>
           ELSE /\ todo' = ops \o todo /\ UNCHANGED outcome
                /\ cur' = IF Helper = "MC" /\ P!Blocking(p) /\ ~nomove
@@ -251,43 +290,57 @@ CmdEnd == /\ Ready /\ H.k \in {"end", "crash"}
           /\ UNCHANGED <<now, wake, flying, prog, cur, hread, spvars, pos, est, calls, vels, lastT, viol>>
 
 \* ------------------------------------------------------------------ _SetPointThread.run
-Send(h) == /\ viol' = Fail(IF ~P!AfterStopOK(Helper, calls, "hover") THEN "StreamAfterStop"
-                           ELSE P!HoverClause(HovObs(h, now), vels, lastT, Period * 1000, 1000))
-           /\ calls' = Append(calls, "hover") /\ lastT' = now * 1000
-SpGet == /\ sp = "waiting" /\ q # <<>>
-         /\ q' = Tail(q)
-         /\ IF Head(q) = TERM
-            THEN sp' = "done" /\ UNCHANGED <<deadline, hs, zbase, zvel, zt0, calls, lastT, viol>>
-            ELSE IF Bug = "skipdup" /\ calls # <<>> /\ Head(q) = hs.v
-            THEN deadline' = now + Period /\ UNCHANGED <<sp, hs, zbase, zvel, zt0, calls, lastT, viol>>
-            ELSE LET z == CurZ h == [v |-> Head(q), z |-> z] IN
-                 /\ zbase' = z /\ zvel' = Head(q).vz /\ zt0' = now /\ hs' = h
-                 /\ deadline' = now + Period /\ sp' = sp /\ Send(h)
-         /\ UNCHANGED <<now, cst, wake, todo, flying, outcome, prog, cur, hread, pos, est, vels>>
-SpTimeout == /\ sp = "waiting" /\ q = <<>> /\ now >= deadline
-             /\ LET h == [hs EXCEPT !.z = CurZ] IN hs' = h /\ Send(h)
-             /\ deadline' = now + Period
-             /\ UNCHANGED <<now, cst, wake, todo, flying, outcome, prog, cur, hread, q, sp, zbase, zvel, zt0, pos, est, vels>>
+\* send_hover_setpoint; the link keeps the thread for L ms (0: returns at once)
+LatChoices == IF nlat < MaxLat THEN Lats \cup {0} ELSE {0}
+Send(h, L, tv) ==
+    /\ viol' = Fail(IF ~P!AfterStopOK(Helper, calls, "hover") THEN "StreamAfterStop"
+                    ELSE P!HoverClause(HovObs(h, now), tv, lastT, Period * 1000, 1000))
+    /\ calls' = Append(calls, "hover") /\ lastT' = now * 1000
+    /\ L \in LatChoices /\ nlat' = IF L > 0 THEN nlat + 1 ELSE nlat
+    /\ IF L = 0 THEN sp' = "waiting" /\ deadline' = now + Period
+                ELSE sp' = "sending" /\ deadline' = now + L
+SpGet(L) == /\ sp = "waiting" /\ q # <<>>
+            /\ q' = Tail(q)
+            /\ IF Head(q) = TERM
+               THEN L = 0 /\ sp' = "done" /\ UNCHANGED <<deadline, hs, zbase, zvel, zt0, nlat, tvels, calls, lastT, viol>>
+               ELSE IF Bug = "skipdup" /\ calls # <<>> /\ Head(q) = hs.v
+               THEN L = 0 /\ deadline' = now + Period /\ UNCHANGED <<sp, hs, zbase, zvel, zt0, nlat, tvels, calls, lastT, viol>>
+               ELSE LET z == CurZ h == [v |-> Head(q), z |-> z] IN
+                    /\ zbase' = z /\ zvel' = Head(q).vz /\ zt0' = now /\ hs' = h
+                    /\ tvels' = Append(tvels, VelObs(Head(q), now))
+                    /\ Send(h, L, Append(tvels, VelObs(Head(q), now)))
+            /\ UNCHANGED <<now, cst, wake, todo, flying, outcome, prog, cur, hread, pos, est, vels>>
+SpTimeout(L) == /\ sp = "waiting" /\ q = <<>> /\ now >= deadline
+                /\ LET h == [hs EXCEPT !.z = CurZ] IN hs' = h /\ Send(h, L, tvels)
+                /\ UNCHANGED <<now, cst, wake, todo, flying, outcome, prog, cur, hread, q, zbase, zvel, zt0, tvels, pos, est, vels>>
+\* the send returns: from now on the thread waits for the next event, one period at most
+SpSent == /\ sp = "sending" /\ now >= deadline
+          /\ IF Bug = "negtimeout" /\ now * 1000 - lastT > Period * 1000
+             THEN sp' = "dead" /\ UNCHANGED deadline          \* Queue.get(timeout < 0): ValueError, uncaught
+             ELSE sp' = "waiting" /\ deadline' = now + Period
+          /\ lastT' = now * 1000
+          /\ UNCHANGED <<now, cst, wake, todo, flying, outcome, prog, cur, hread, q, hs, zbase, zvel, zt0, nlat, tvels, pos, est, calls, vels, viol>>
 
 \* ------------------------------------------------------------------ time
-CmdCanFire == (cst = "run" /\ todo # <<>> /\ (H.k = "join" => sp = "done")) \/ (cst = "sleep" /\ now >= wake)
-SpCanFire == sp = "waiting" /\ (q # <<>> \/ now >= deadline)
-Deadlines == (IF cst = "sleep" THEN {wake} ELSE {}) \cup (IF sp = "waiting" THEN {deadline} ELSE {})
+CmdCanFire == (cst = "run" /\ todo # <<>> /\ (H.k = "join" => sp \in {"done", "dead"})) \/ (cst = "sleep" /\ now >= wake)
+SpCanFire == (sp = "waiting" /\ (q # <<>> \/ now >= deadline)) \/ (sp = "sending" /\ now >= deadline)
+Deadlines == (IF cst = "sleep" THEN {wake} ELSE {}) \cup (IF sp \in {"waiting", "sending"} THEN {deadline} ELSE {})
 Tick == /\ ~CmdCanFire /\ ~SpCanFire /\ cst \notin {"done", "crashed"} /\ Deadlines # {}
         /\ now' = CHOOSE d \in Deadlines : \A e \in Deadlines : d <= e
         /\ UNCHANGED <<cst, wake, todo, flying, outcome, prog, cur, hread, spvars, pos, est, calls, vels, lastT, viol>>
 
 SleepChoices == IF Ready /\ H.k = "sleep" THEN {H.n, H.n + 1} ELSE {}
 Next == CmdParam \/ (\E ms \in SleepChoices : CmdSleep(ms)) \/ CmdWake \/ CmdSpStart \/ CmdPut \/ CmdTerm \/ CmdJoin
-        \/ CmdCall \/ CmdGoTo \/ (\E p \in Prims : Choose(p)) \/ ChooseEnd \/ CmdEnd \/ SpGet \/ SpTimeout \/ Tick
+        \/ CmdCall \/ CmdGoTo \/ (\E p \in Prims : Choose(p)) \/ ChooseEnd \/ CmdEnd
+        \/ (\E L \in Lats \cup {0} : SpGet(L) \/ SpTimeout(L)) \/ SpSent \/ Tick
 Spec == Init /\ [][Next]_vars
 
 \* ---- properties (C17)
 NoViolation == viol = "ok"
 \* when the user's thread is through (or dead), the stream ended on the ground command; the
 \* streaming thread is not left running (it would stream after the stop)
-Ended == cst \in {"done", "crashed"} => P!EndsWithStop(Helper, calls, outcome) /\ sp \in {"none", "done"}
+Ended == cst \in {"done", "crashed"} => P!EndsWithStop(Helper, calls, outcome) /\ sp \in {"none", "done", "dead"}
 PosTracks == Helper = "PHC" /\ Ready /\ H.k \in {"body", "end"} =>
                 P!PosOK([x |-> P!Milli(pos.x), y |-> P!Milli(pos.y), z |-> P!Milli(pos.z)], est)
-TypeOK == cst \in {"run", "sleep", "done", "crashed"} /\ sp \in {"none", "waiting", "done"}
+TypeOK == cst \in {"run", "sleep", "done", "crashed"} /\ sp \in {"none", "waiting", "sending", "done", "dead"}
 =============================================================================
